@@ -1,6 +1,7 @@
 import Drv.Util
 import Model.LinAlg
 import Model.Hist
+import Model.Lstsq
 /-!
 Driver operations of property C12 (`Model/Hist.lean`).
 
@@ -17,7 +18,20 @@ parameter of the model):
   `N`                 the driver solves the 6×6 normal equations `VᵀV c = Vᵀd` with `TW.invSq`
                       (exact on `Q`); a singular normal matrix counts as a failed fit;
   `C c00 c10 c01 c11 c20 c02`   the coefficients observed by the harness in the real call;
-  `X`                 the fit fails (`LinAlgError` / non-finite result).
+  `X`                 the fit fails (`LinAlgError` / non-finite result);
+  `M`                 the concrete model of the call, `TW.lstsqLsq` of `Model/Lstsq.lean` (normal
+                      equations by elimination with diagonal pivoting, minimum-norm solution when the
+                      design is rank deficient): `findPeak` is then a closed function.  Relative pivot
+                      threshold: 0 on `Q` (exact), 1e-10 on `F`.
+* `findpeakm <Q|F> <ny> <nx> <box> <mask> <ny·nx data>`
+    → `ok <x> <y> <STATUS> <y1> <y2> <x1> <x2> <fit>` | `err badBox`
+  `findPeakConcrete` (= `findpeak … M`) together with what the fit stage saw: `<fit>` is `nofit` (early
+  return or fewer than six good pixels) or `<rank> <c00> <c10> <c01> <c11> <c20> <c02>`, the rank of the
+  design matrix of the fit box and the coefficients handed to the curvature test / vertex formula.
+* `lstsq <Q|F> <m> <6·m design entries, row-major> <m data>`
+    → `ok <rank> <c00> <c10> <c01> <c11> <c20> <c02>`   `TW.lstsqSolve` / `TW.lstsqMinNorm`: the rank
+      of the design matrix found by the elimination and numpy's result (the least-squares solution,
+      of minimum norm when rank < 6)
 -/
 namespace Drv
 open TW
@@ -50,6 +64,12 @@ def parseLsq [Sc K] (eps : K) (toks : List String) : Option (Lsq K) :=
     | _ => none
   | _ => none
 
+/-- `parseLsq` plus the token `M`: the concrete model `TW.lstsqLsq` -/
+def parseLsqM [Sc K] (eps rtol : K) (toks : List String) : Option (Lsq K) :=
+  match toks with
+  | ["M"] => some (lstsqLsq rtol)
+  | _ => parseLsq eps toks
+
 def branchName : EstBranch → String
   | .noPairs => "nopairs"
   | .single => "single"
@@ -81,13 +101,13 @@ def opHist (args : List String) : String :=
     | _, _, _, _ => "bad-op"
   | _ => "bad-op"
 
-def opEstShift (eps : K) (args : List String) : String :=
+def opEstShift (eps rtol : K) (args : List String) : String :=
   match args with
   | ss :: ps :: nis :: nrs :: rest =>
     match (Sc.parse ss : Option K), (Sc.parse ps : Option K), nis.toNat?, nrs.toNat? with
     | some sr, some pscale, some ni, some nr =>
       let nc := 2 * ni + 2 * nr
-      match (parseAll (rest.take nc) : Option (List K)), parseLsq eps (rest.drop nc) with
+      match (parseAll (rest.take nc) : Option (List K)), parseLsqM eps rtol (rest.drop nc) with
       | some cs, some lsq =>
         if cs.length ≠ nc then "bad-op" else
         if ¬ ((zeroK : K) < sr) ∨ ¬ ((zeroK : K) < pscale) then "err domain" else
@@ -105,14 +125,14 @@ def parseMask (ny nx : Nat) (s : String) : Option (Option (List (List Bool))) :=
   if cs.length ≠ ny * nx ∨ cs.any (fun c => c ≠ '0' ∧ c ≠ '1') then none
   else some (some ((chunks nx (cs.map fun c => c == '1'))))
 
-def opFindPeak (eps : K) (args : List String) : String :=
+def opFindPeak (eps rtol : K) (args : List String) : String :=
   match args with
   | nys :: nxs :: bs :: ms :: rest =>
     match nys.toNat?, nxs.toNat?, bs.toInt? with
     | some ny, some nx, some boxi =>
       if ny = 0 ∨ nx = 0 then "bad-op" else
       match parseMask ny nx ms, (parseAll (rest.take (ny * nx)) : Option (List K)),
-            parseLsq eps (rest.drop (ny * nx)) with
+            parseLsqM eps rtol (rest.drop (ny * nx)) with
       | some mask, some ds, some lsq =>
         if ds.length ≠ ny * nx then "bad-op" else
         match findPeak lsq (chunks nx ds) boxi.toNat mask with
@@ -123,10 +143,55 @@ def opFindPeak (eps : K) (args : List String) : String :=
     | _, _, _ => "bad-op"
   | _ => "bad-op"
 
+def fitInfo (rtol : K) (data : List (List K)) (box : Nat) (mask : Option (List (List Bool))) : String :=
+  match peakBox data box mask with
+  | .done _ => "nofit"
+  | .fit y1 y2 x1 x2 =>
+    let pts := boxPoints data mask y1 y2 x1 x2
+    if pts.length < 6 then "nofit" else
+    let rows := pts.map designRow
+    let d := pts.map fun p => p.2.2
+    let c := lstsqMinNorm rtol rows d
+    s!"{(lstsqSolve rtol rows d).1} {fmtAll [c.c00, c.c10, c.c01, c.c11, c.c20, c.c02]}"
+
+def opFindPeakM (rtol : K) (args : List String) : String :=
+  match args with
+  | nys :: nxs :: bs :: ms :: rest =>
+    match nys.toNat?, nxs.toNat?, bs.toInt? with
+    | some ny, some nx, some boxi =>
+      if ny = 0 ∨ nx = 0 then "bad-op" else
+      match parseMask ny nx ms, (parseAll rest : Option (List K)) with
+      | some mask, some ds =>
+        if ds.length ≠ ny * nx then "bad-op" else
+        let data := chunks nx ds
+        match findPeakConcrete rtol data boxi.toNat mask with
+        | .error .badBox => "err badBox"
+        | .ok p =>
+          s!"ok {Sc.fmt p.x} {Sc.fmt p.y} {p.status.toString} {p.y1} {p.y2} {p.x1} {p.x2} " ++
+            fitInfo K rtol data boxi.toNat mask
+      | _, _ => "bad-op"
+    | _, _, _ => "bad-op"
+  | _ => "bad-op"
+
+def opLstsq (rtol : K) (args : List String) : String :=
+  match args with
+  | ms :: rest =>
+    match ms.toNat?, (parseAll rest : Option (List K)) with
+    | some m, some vs =>
+      if vs.length ≠ 7 * m then "bad-op" else
+      let rows := chunks 6 (vs.take (6 * m))
+      let d := vs.drop (6 * m)
+      let c := lstsqMinNorm rtol rows d
+      s!"ok {(lstsqSolve rtol rows d).1} {fmtAll [c.c00, c.c10, c.c01, c.c11, c.c20, c.c02]}"
+    | _, _ => "bad-op"
+  | _ => "bad-op"
+
 end
 
 def epsQ : Rat := mkRat 1 (10 ^ 40)
 def epsF : Float := 1e-300
+def rtolQ : Rat := 0
+def rtolF : Float := 1e-10
 
 def opsC12 : List (String × (List String → String)) :=
   [("hist", fun args => match args with
@@ -134,12 +199,20 @@ def opsC12 : List (String × (List String → String)) :=
       | "F" :: rest => opHist Float rest
       | _ => "bad-op"),
    ("estshift", fun args => match args with
-      | "Q" :: rest => opEstShift Rat epsQ rest
-      | "F" :: rest => opEstShift Float epsF rest
+      | "Q" :: rest => opEstShift Rat epsQ rtolQ rest
+      | "F" :: rest => opEstShift Float epsF rtolF rest
       | _ => "bad-op"),
    ("findpeak", fun args => match args with
-      | "Q" :: rest => opFindPeak Rat epsQ rest
-      | "F" :: rest => opFindPeak Float epsF rest
+      | "Q" :: rest => opFindPeak Rat epsQ rtolQ rest
+      | "F" :: rest => opFindPeak Float epsF rtolF rest
+      | _ => "bad-op"),
+   ("findpeakm", fun args => match args with
+      | "Q" :: rest => opFindPeakM Rat rtolQ rest
+      | "F" :: rest => opFindPeakM Float rtolF rest
+      | _ => "bad-op"),
+   ("lstsq", fun args => match args with
+      | "Q" :: rest => opLstsq Rat rtolQ rest
+      | "F" :: rest => opLstsq Float rtolF rest
       | _ => "bad-op")]
 
 end Drv
